@@ -180,6 +180,12 @@ class C11(SolverSuite):
                     ops.append({"a": "S0", "op": "setp", "field": "eps", "value": cur["eps"]})
                 ops.append({"a": "S0", "op": "solve"})
         ops = G.sprinkle_misc(rng, ops, "S0", prob=0.1)
+        if rng.random() < 0.06 and "D" not in actors:
+            lo8, up8 = objectives.gen_box(rng, 7)
+            actors["D8"] = {"kind": "solver", "objective": objectives.gen_spec(rng, 7, lo8, up8, ["linear", "paraboloid"]), "lower": lo8, "upper": up8,
+                            "params": dict(spec["params"]), "listeners": [], "params_obj": "shared:P"}
+            spec["params_obj"] = "shared:P"
+            ops = [{"a": "D8", "op": "create"}] + ops
         from .suites import gen_self_reads
         plan = gen_self_reads(rng, G.base_plan(self.prop, run_seed, actors, ops, clock=G.gen_clock(rng)))
         u = rng.random()
